@@ -151,6 +151,31 @@ def search(res, tier, seed, deep=False):
                     res.case(("apply-3d", name, var, kind))
                     if before != [np.asarray(x).tobytes() for x in (O, H, F)]:
                         report("apply-modified-input:" + name, dict(inp, kind=kind), None, "apply modified one of its 3-d arguments")
+        # apply_location without any window (the series reach the per-window method as they are, not as slices):
+        # the caller's arrays are untouched, also when they hold drizzle below the wet-day thresholds and NaN-free zeros
+        for name in R.ALL:
+            for var in ("tas", "pr"):
+                try:
+                    d = R.build(name, var, "none", r)
+                except Exception:
+                    continue
+                rs = np.random.RandomState(r.randint(0, 10 ** 6))
+                n = 500
+                o, h, f = R.series(rs, n, var), R.series(rs, n, var, 1.0, 1.2), R.series(rs, n, var, 2.0, 1.1)
+                if var == "pr":
+                    for x in (o, h, f):
+                        k = rs.rand(n) < 0.15; x[k] = rs.rand(int(k.sum())) * 5e-7 + 1e-9
+                t = R.times(n, "1981-01-01")
+                before = [x.tobytes() for x in (o, h, f)]
+                try:
+                    R.run(d, o, h, f, t, t, t, seed=9)
+                except Exception:
+                    continue
+                res.case(("no-window-purity", name, var))
+                after = [x.tobytes() for x in (o, h, f)]
+                if before != after:
+                    report("apply_location-modified-input:" + name, dict(debiaser=name, variable=var, window_mode="none", seed=seed), [i_ for i_ in range(3) if before[i_] != after[i_]],
+                           "apply_location modified one of the caller's series (0 = obs, 1 = cm_hist, 2 = cm_future)")
         # earlier calls with look-alike time axes: same first date, last date and length but another interior
         # (two years swapped in storage / a calendar without 29 February), then a longer series; the reference is
         # the same call in a fresh interpreter
